@@ -57,6 +57,7 @@ nf_case = st.fixed_dictionaries({
     "hdr": header_st, "src": source_st,
     "docov": st.sampled_from([True, False]), "bkg": st.sampled_from([None, None, 0.0, 3.5, -20.0]),
     "bitpix": st.sampled_from([-64, -64, -32]),
+    "cli": st.sampled_from([False, False, False, True]),
 })
 
 noisy_case = st.fixed_dictionaries({
@@ -171,8 +172,26 @@ def check_noise_free(c):
         single = c.get("bitpix", -64) == -32
         skyimg.write_fits(path, img + (bkg or 0.0), B["hdr"], dtype=np.float32 if single else np.float64)
         comps = run_finder(path, B["rms"], bkg if bkg is not None else None, c["docov"])
+        cli_rows = None
+        if c.get("cli"):
+            # the command line (aegean IMAGE --table) must report the same component
+            from vlib.cli import run_aegean
+            argv = ["--forcerms", B["rms"], "--negative"] + ([] if c["docov"] else ["--nocov"])
+            if bkg is not None:
+                argv += ["--forcebkg", bkg]
+            rc, cli_rows = run_aegean(path, d, "find", argv)
+            if rc not in (0, None):
+                cli_rows = None
+                res.bad("cli-run", "aegean returned %r" % (rc,))
     finally:
         shutil.rmtree(d, ignore_errors=True)
+    if cli_rows is not None:
+        def key(s_):
+            return tuple(float(v) for v in (s_.ra, s_.dec, s_.peak_flux, s_.a, s_.b, s_.pa, s_.int_flux, s_.flags))
+        if sorted(key(s_) for s_ in cli_rows) != sorted(key(s_) for s_ in comps):
+            res.bad("cli-table", "the table written by `aegean --table` has %d rows, the API returns %d (or their values differ)" % (
+                len(cli_rows), len(comps)))
+        res.label("cli")
     tags = dict(proj=c["hdr"]["proj"], docov=c["docov"], amplitude_bound_excludes_truth=k1)
     what = "%s dec0=%.1f scale=%.1f\" %dx%d src (a=%.2f b=%.2f px, pa=%.1f) snr=%.0f docov=%s" % (
         c["hdr"]["proj"], c["hdr"]["crval2"], c["hdr"]["scale"], B["shape"][0], B["shape"][1],
